@@ -222,11 +222,17 @@ def add_rules(rng, cfg, profile):
                     x.init = []
                 if kind_of(x.slot) in ("oi", "os"):
                     x.init = None
-        return
     if n >= 2 and profile.get("constraints", True):
         # argument constraints
-        for _ in range(rng.choice([0, 0, 1, 1, 2])):
+        targets = [y for x in cfg.args for y in x.requires + x.excludes]
+        for _ in range(rng.choice([0, 0, 1, 1, 2, 3])):
             a, b = rng.sample(cfg.args, 2)
+            if targets and rng.random() < 0.5:
+                # several constraints on the same target (e.g. required by one argument and excluded by another)
+                b = rng.choice(targets)
+                if b is a:
+                    continue
+            targets.append(b)
             if rng.random() < 0.5:
                 if b not in a.requires and a not in b.requires and b not in a.excludes:
                     a.requires.append(b)
